@@ -292,9 +292,9 @@ Proof. unfold c_contains. now intros ->. Qed.
 Lemma is_group_spelling t1 t2 c : tag_str t1 = tag_str t2 -> c_is_group t1 c = c_is_group t2 c.
 Proof. unfold c_is_group. now intros ->. Qed.
 Lemma add_group_spelling t1 t2 it idx c : tag_str t1 = tag_str t2 -> c_add_group t1 it idx c = c_add_group t2 it idx c.
-Proof. unfold c_add_group. now intros ->. Qed.
+Proof. unfold c_add_group, tag_ok. now intros ->. Qed.
 Lemma set_group_spelling t1 t2 g c : tag_str t1 = tag_str t2 -> c_set_group t1 g c = c_set_group t2 g c.
-Proof. unfold c_set_group. now intros ->. Qed.
+Proof. unfold c_set_group, tag_ok. now intros ->. Qed.
 Lemma group_list_spelling t1 t2 c : tag_str t1 = tag_str t2 -> c_get_group_list t1 c = c_get_group_list t2 c.
 Proof. unfold c_get_group_list. now intros ->. Qed.
 Lemma group_by_index_spelling t1 t2 i c :
@@ -492,24 +492,39 @@ Proof.
       exists a, b. repeat split; [exact H1|exact H2|]. rewrite H3. unfold len in *. lia.
 Qed.
 
-Lemma add_group_refused t item idx c c' e : c_add_group t item idx c = (c', Exc e) -> c' = c.
+(* a refused add_group changes nothing, and is refused only for a non-integer tag, a bad item, or a
+   tag that exists and is not a group: always with a library error *)
+Lemma add_group_refused t item idx c c' e :
+  c_add_group t item idx c = (c', Exc e) ->
+  c' = c /\
+  ((e = EFIXMessage /\ tag_ok t = false) \/
+   (tag_ok t = true /\ item = Exc e) \/
+   (e = EFIXMessage /\ tag_ok t = true /\ c_is_group t c = Some false)).
 Proof.
-  unfold c_add_group. destruct item as [it|e'].
-  - destruct (lookup (tag_str t) (items c)) as [[s|g|k x]|]; intros H; now inversion H.
-  - intros H. now inversion H.
+  unfold c_add_group, c_is_group. destruct (tag_ok t); cbn [negb].
+  - destruct item as [it|e'].
+    + destruct (lookup (tag_str t) (items c)) as [[s|g|k x]|]; intros H; inversion H; subst;
+        (split; [reflexivity|]); right; right; now repeat split.
+    + intros H. inversion H; subst. split; [reflexivity|]. right. left. now split.
+  - intros H. inversion H; subst. split; [reflexivity|]. now left.
 Qed.
 
 Lemma add_group_ok t it idx c :
-  (forall s, lookup (tag_str t) (items c) <> Some (VStr s)) ->
-  (forall k x, lookup (tag_str t) (items c) <> Some (VCls k x)) ->
+  tag_ok t = true ->
+  c_is_group t c <> Some false ->
   let g := match c_get_group_list t c with Ok g => g | Exc _ => [] end in
   c_add_group t (Ok it) idx c =
     (with_items c (assign (tag_str t) (VGrp (py_insert idx it g)) (items c)), Ok tt).
 Proof.
-  intros N1 N2. rewrite group_list_classes. unfold c_add_group.
-  destruct (lookup (tag_str t) (items c)) as [[s|g|k x]|]; try reflexivity.
-  - exfalso. now apply (N1 s).
-  - exfalso. now apply (N2 k x).
+  intros T N. rewrite group_list_classes. unfold c_add_group, c_is_group in *. rewrite T. cbn [negb].
+  destruct (lookup (tag_str t) (items c)) as [[s|g|k x]|]; try reflexivity; now exfalso.
+Qed.
+
+Lemma add_group_inv t it idx c c' :
+  c_add_group t (Ok it) idx c = (c', Ok tt) -> tag_ok t = true /\ c_is_group t c <> Some false.
+Proof.
+  unfold c_add_group, c_is_group. destruct (tag_ok t); cbn [negb]; [|discriminate].
+  destruct (lookup (tag_str t) (items c)) as [[s|g|k x]|]; intros H; try discriminate H; split; congruence.
 Qed.
 
 Lemma add_group_then_list t it idx c c' :
@@ -520,31 +535,56 @@ Lemma add_group_then_list t it idx c c' :
   /\ forall k, k <> tag_str t -> lookup k (items c') = lookup k (items c).
 Proof.
   unfold c_add_group, c_contains, keys, has. rewrite !group_list_classes.
+  destruct (tag_ok t); cbn [negb]; [|discriminate].
   destruct (lookup (tag_str t) (items c)) as [[s|g|k x]|] eqn:L; intros H; inversion H; subst;
     rewrite items_with_items, lookup_assign_same, assign_keys; unfold has; rewrite L; repeat split;
     intros k' N; now apply lookup_assign_other.
 Qed.
 
+(* add_group on a tag that holds a plain value or a class object: FIXMessageError, nothing changes *)
+Lemma add_group_on_plain t item idx c :
+  c_is_group t c = Some false ->
+  exists e, c_add_group t item idx c = (c, Exc e) /\ (e = EFIXMessage \/ item = Exc e).
+Proof.
+  unfold c_add_group, c_is_group. intros G. destruct (tag_ok t); cbn [negb]; [|exists EFIXMessage; auto].
+  destruct item as [it|e]; [|exists e; auto].
+  destruct (lookup (tag_str t) (items c)) as [[s|g|k x]|]; try discriminate G; exists EFIXMessage; auto.
+Qed.
+
+(* a non-integer tag is refused as a group tag, like in set *)
+Lemma group_nonint_tag t :
+  tag_ok t = false ->
+  (forall g c, c_set_group t g c = (c, Exc EFIXMessage)) /\
+  (forall it idx c, c_add_group t it idx c = (c, Exc EFIXMessage)).
+Proof. intros T. unfold c_set_group, c_add_group. rewrite T. now split. Qed.
+
 Lemma set_group_refused t g c c' e :
   c_set_group t g c = (c', Exc e) ->
-  c' = c /\ ((e = EDuplicatedTag /\ c_contains t c = true) \/ (c_contains t c = false /\ g = Exc e)).
+  c' = c /\
+  ((e = EFIXMessage /\ tag_ok t = false) \/
+   (e = EDuplicatedTag /\ tag_ok t = true /\ c_contains t c = true) \/
+   (tag_ok t = true /\ c_contains t c = false /\ g = Exc e)).
 Proof.
-  unfold c_set_group, c_contains. destruct (has (tag_str t) (items c)).
+  unfold c_set_group, c_contains. destruct (tag_ok t); cbn [negb].
+  - destruct (has (tag_str t) (items c)).
+    + intros H. inversion H. split; [reflexivity|]. right. left. now repeat split.
+    + destruct g as [g|e']; intros H; inversion H. split; [reflexivity|]. right. right. now repeat split.
   - intros H. inversion H. split; [reflexivity|]. now left.
-  - destruct g as [g|e']; intros H; inversion H. split; [reflexivity|]. now right.
 Qed.
 
 Lemma set_group_ok t g c :
-  c_contains t c = false ->
+  tag_ok t = true -> c_contains t c = false ->
   c_set_group t (Ok g) c = (with_items c (items c ++ [(tag_str t, VGrp g)]), Ok tt).
-Proof. unfold c_set_group, c_contains. intros H. rewrite H. now rewrite assign_new. Qed.
+Proof. unfold c_set_group, c_contains. intros T H. rewrite T, H. cbn [negb]. now rewrite assign_new. Qed.
 
 Lemma set_group_then_list t g c c' :
-  c_set_group t (Ok g) c = (c', Ok tt) -> c_get_group_list t c' = Ok g /\ keys c' = keys c ++ [tag_str t].
+  c_set_group t (Ok g) c = (c', Ok tt) ->
+  tag_ok t = true /\ c_get_group_list t c' = Ok g /\ keys c' = keys c ++ [tag_str t].
 Proof.
-  unfold c_set_group, keys. destruct (has (tag_str t) (items c)) eqn:E; [discriminate|].
+  unfold c_set_group, keys. destruct (tag_ok t); cbn [negb]; [|discriminate].
+  destruct (has (tag_str t) (items c)) eqn:E; [discriminate|].
   intros H. inversion H; subst. rewrite group_list_classes, items_with_items, lookup_assign_same.
-  split; [reflexivity|]. rewrite assign_new by exact E. now rewrite map_app.
+  split; [reflexivity|]. split; [reflexivity|]. rewrite assign_new by exact E. now rewrite map_app.
 Qed.
 
 (* get_group_by_index: index order, Python's negative indices *)
@@ -560,7 +600,7 @@ Lemma group_by_index_nonneg t idx c g :
   exists x, nth_error g (Z.to_nat idx) = Some x /\ c_get_group_by_index t idx c = Ok x.
 Proof.
   intros G H. unfold c_get_group_by_index. rewrite G.
-  assert ((Z.of_nat (length g) <=? idx)%Z = false) as -> by lia.
+  assert ((Z.of_nat (length g) <=? idx)%Z || (idx <? - Z.of_nat (length g))%Z = false) as -> by lia.
   assert ((0 <=? idx)%Z = true) as -> by lia. apply nth_res_ok. lia.
 Qed.
 
@@ -570,28 +610,32 @@ Lemma group_by_index_negative t idx c g :
             /\ c_get_group_by_index t idx c = Ok x.
 Proof.
   intros G H. unfold c_get_group_by_index. rewrite G.
-  assert ((Z.of_nat (length g) <=? idx)%Z = false) as -> by lia.
-  assert ((0 <=? idx)%Z = false) as -> by lia.
-  assert ((0 <=? Z.of_nat (length g) + idx)%Z = true) as -> by lia. apply nth_res_ok. lia.
+  assert ((Z.of_nat (length g) <=? idx)%Z || (idx <? - Z.of_nat (length g))%Z = false) as -> by lia.
+  assert ((0 <=? idx)%Z = false) as -> by lia. apply nth_res_ok. lia.
 Qed.
 
-Lemma group_by_index_high t idx c g :
-  c_get_group_list t c = Ok g -> (Z.of_nat (length g) <= idx)%Z ->
+(* outside [-len, len) : TagNotFoundError on both sides *)
+Lemma group_by_index_out_of_range t idx c g :
+  c_get_group_list t c = Ok g -> (Z.of_nat (length g) <= idx \/ idx < - Z.of_nat (length g))%Z ->
   c_get_group_by_index t idx c = Exc ETagNotFound.
 Proof.
   intros G H. unfold c_get_group_by_index. rewrite G.
-  assert ((Z.of_nat (length g) <=? idx)%Z = true) as -> by lia. reflexivity.
+  assert ((Z.of_nat (length g) <=? idx)%Z || (idx <? - Z.of_nat (length g))%Z = true) as -> by lia.
+  reflexivity.
 Qed.
 
-(* D18: below -len the list index error escapes *)
-Lemma group_by_index_low t idx c g :
-  c_get_group_list t c = Ok g -> (idx < - Z.of_nat (length g))%Z ->
-  c_get_group_by_index t idx c = Exc EIndexError.
+(* the only outcomes: an item, or TagNotFoundError / UnmappedRepeatedGrpError *)
+Lemma group_by_index_errors t idx c e :
+  c_get_group_by_index t idx c = Exc e -> e = ETagNotFound \/ e = EUnmappedGrp.
 Proof.
-  intros G H. unfold c_get_group_by_index. rewrite G.
-  assert ((Z.of_nat (length g) <=? idx)%Z = false) as -> by lia.
-  assert ((0 <=? idx)%Z = false) as -> by lia.
-  assert ((0 <=? Z.of_nat (length g) + idx)%Z = false) as -> by lia. reflexivity.
+  unfold c_get_group_by_index. rewrite group_list_classes.
+  destruct (lookup (tag_str t) (items c)) as [[s|g|k x]|]; try (intros H; inversion H; auto; fail).
+  destruct ((Z.of_nat (length g) <=? idx)%Z || (idx <? - Z.of_nat (length g))%Z) eqn:E;
+    [intros H; inversion H; auto|].
+  destruct (0 <=? idx)%Z eqn:E2; intros H.
+  - destruct (nth_res_ok (Z.to_nat idx) g ltac:(lia)) as (x & _ & R). rewrite R in H. discriminate.
+  - destruct (nth_res_ok (Z.to_nat (Z.of_nat (length g) + idx)) g ltac:(lia)) as (x & _ & R).
+    rewrite R in H. discriminate.
 Qed.
 
 Lemma group_by_index_no_group t idx c e :
@@ -1089,8 +1133,10 @@ Qed.
 
 (* ================================================================ unique keys: an invariant of every operation *)
 
+(* well formed: keys are unique and are integer keys (int() accepts them), at every depth *)
 Inductive wfc : container -> Prop :=
-| wf_C m l : NoDup (map fst l) -> Forall (fun kv => wfv (snd kv)) l -> wfc (C m l)
+| wf_C m l : NoDup (map fst l) -> Forall (fun k => key_ok k = true) (map fst l) ->
+             Forall (fun kv => wfv (snd kv)) l -> wfc (C m l)
 with wfv : value -> Prop :=
 | wf_VStr s : wfv (VStr s)
 | wf_VGrp g : Forall wfc g -> wfv (VGrp g)
@@ -1099,10 +1145,15 @@ with wfv : value -> Prop :=
 Lemma wfc_keys c : wfc c -> NoDup (keys c).
 Proof. intros H. now inversion H. Qed.
 
+Lemma wfc_int_keys c : wfc c -> Forall (fun k => key_ok k = true) (keys c).
+Proof. intros H. now inversion H. Qed.
+
 Lemma wfc_values c : wfc c -> Forall (fun kv => wfv (snd kv)) (items c).
 Proof. intros H. now inversion H. Qed.
 
-Lemma wfc_intro c : NoDup (keys c) -> Forall (fun kv => wfv (snd kv)) (items c) -> wfc c.
+Lemma wfc_intro c :
+  NoDup (keys c) -> Forall (fun k => key_ok k = true) (keys c) ->
+  Forall (fun kv => wfv (snd kv)) (items c) -> wfc c.
 Proof. destruct c. now constructor. Qed.
 
 Lemma wf_empty m : wfc (C m []).
@@ -1114,10 +1165,12 @@ Proof.
   now apply (F (k, v)).
 Qed.
 
-Lemma wf_assign c k v : wfc c -> wfv v -> wfc (with_items c (assign k v (items c))).
+Lemma wf_assign c k v : wfc c -> key_ok k = true -> wfv v -> wfc (with_items c (assign k v (items c))).
 Proof.
-  intros W Wv. apply wfc_intro.
+  intros W K Wv. apply wfc_intro.
   - unfold keys. rewrite items_with_items. apply assign_NoDup. now apply wfc_keys.
+  - unfold keys. rewrite items_with_items, assign_keys. pose proof (wfc_int_keys _ W) as F. unfold keys in F.
+    destruct (has k (items c)); [exact F|]. apply Forall_app. split; [exact F|]. now constructor.
   - rewrite items_with_items. apply Forall_forall. intros kv H. apply assign_In in H.
     destruct H as [[E _]|H]; [rewrite E; exact Wv|].
     pose proof (wfc_values _ W) as F. rewrite Forall_forall in F. now apply F.
@@ -1127,16 +1180,21 @@ Lemma wf_remove c k : wfc c -> wfc (with_items c (remove k (items c))).
 Proof.
   intros W. apply wfc_intro.
   - unfold keys. rewrite items_with_items. apply remove_NoDup. now apply wfc_keys.
+  - unfold keys. rewrite items_with_items. apply Forall_forall. intros k' H.
+    apply in_map_iff in H. destruct H as (kv & <- & H). apply remove_incl in H.
+    pose proof (wfc_int_keys _ W) as F. rewrite Forall_forall in F. apply F. unfold keys.
+    apply in_map_iff. now exists kv.
   - rewrite items_with_items. apply Forall_forall. intros kv H. apply remove_incl in H.
     pose proof (wfc_values _ W) as F. rewrite Forall_forall in F. now apply F.
 Qed.
 
 Lemma set_wf t v r c : wfc c -> wfc (fst (c_set t v r c)).
 Proof.
-  intros W. unfold c_set. destruct (tag_ok t); cbn [negb fst]; [|exact W].
+  intros W. unfold c_set. destruct (tag_ok t) eqn:T; cbn [negb fst]; [|exact W].
   destruct v as [s|k x].
-  - destruct (negb r && has (tag_str t) (items c)); cbn [fst]; [exact W|]. apply wf_assign; [exact W|constructor].
-  - cbn [fst]. apply wf_assign; [exact W|constructor].
+  - destruct (negb r && has (tag_str t) (items c)); cbn [fst]; [exact W|].
+    apply wf_assign; [exact W|exact T|constructor].
+  - cbn [fst]. apply wf_assign; [exact W|exact T|constructor].
 Qed.
 
 Lemma del_wf t c : wfc c -> wfc (fst (c_del t c)).
@@ -1153,19 +1211,21 @@ Qed.
 Lemma add_group_wf t item idx c :
   wfc c -> (forall it, item = Ok it -> wfc it) -> wfc (fst (c_add_group t item idx c)).
 Proof.
-  intros W Wi. unfold c_add_group. destruct item as [it|e]; [|exact W].
+  intros W Wi. unfold c_add_group. destruct (tag_ok t) eqn:T; cbn [negb fst]; [|exact W].
+  destruct item as [it|e]; [|exact W].
   specialize (Wi it eq_refl).
   destruct (lookup (tag_str t) (items c)) as [[s|g|k x]|] eqn:L; cbn [fst]; try exact W.
-  - apply wf_assign; [exact W|]. constructor. apply py_insert_Forall; [exact Wi|].
+  - apply wf_assign; [exact W|exact T|]. constructor. apply py_insert_Forall; [exact Wi|].
     pose proof (wf_lookup _ _ _ W L) as Wg. now inversion Wg.
-  - apply wf_assign; [exact W|]. constructor. apply py_insert_Forall; [exact Wi|constructor].
+  - apply wf_assign; [exact W|exact T|]. constructor. apply py_insert_Forall; [exact Wi|constructor].
 Qed.
 
 Lemma set_group_wf t g c :
   wfc c -> (forall g', g = Ok g' -> Forall wfc g') -> wfc (fst (c_set_group t g c)).
 Proof.
-  intros W Wg. unfold c_set_group. destruct (has (tag_str t) (items c)); cbn [fst]; [exact W|].
-  destruct g as [g'|e]; cbn [fst]; [|exact W]. apply wf_assign; [exact W|]. constructor. now apply Wg.
+  intros W Wg. unfold c_set_group. destruct (tag_ok t) eqn:T; cbn [negb fst]; [|exact W].
+  destruct (has (tag_str t) (items c)); cbn [fst]; [exact W|].
+  destruct g as [g'|e]; cbn [fst]; [|exact W]. apply wf_assign; [exact W|exact T|]. constructor. now apply Wg.
 Qed.
 
 Lemma group_list_wf t c g : wfc c -> c_get_group_list t c = Ok g -> Forall wfc g.
@@ -1202,9 +1262,8 @@ Lemma group_by_index_In t idx c x :
 Proof.
   unfold c_get_group_by_index. destruct (c_get_group_list t c) as [g|e]; [|discriminate].
   intros H. exists g. split; [reflexivity|].
-  destruct (Z.of_nat (length g) <=? idx)%Z; [discriminate|].
-  destruct (0 <=? idx)%Z; [now apply nth_res_In in H|].
-  destruct (0 <=? Z.of_nat (length g) + idx)%Z; [now apply nth_res_In in H|discriminate].
+  destruct ((Z.of_nat (length g) <=? idx)%Z || (idx <? - Z.of_nat (length g))%Z); [discriminate|].
+  destruct (0 <=? idx)%Z; now apply nth_res_In in H.
 Qed.
 
 Lemma group_by_index_wf t idx c x : wfc c -> c_get_group_by_index t idx c = Ok x -> wfc x.
@@ -1357,7 +1416,7 @@ Qed.
 Lemma init_wf n : Forall wfc (init n).
 Proof. unfold init. induction n; cbn; constructor; [apply wf_empty|assumption]. Qed.
 
-(* keys stay unique, at every depth, in every variable, after every operation sequence *)
+(* keys stay unique and integer, at every depth, in every variable, after every operation sequence *)
 Lemma reachable_wf n ops : Forall wfc (run_state n ops).
 Proof.
   unfold run_state.
@@ -1366,9 +1425,11 @@ Proof.
   apply G. apply init_wf.
 Qed.
 
-Lemma reachable_unique_keys n ops c : In c (run_state n ops) -> NoDup (keys c).
+Lemma reachable_unique_keys n ops c :
+  In c (run_state n ops) -> NoDup (keys c) /\ Forall (fun k => key_ok k = true) (keys c).
 Proof.
-  intros H. pose proof (reachable_wf n ops) as F. rewrite Forall_forall in F. apply wfc_keys. now apply F.
+  intros H. pose proof (reachable_wf n ops) as F. rewrite Forall_forall in F.
+  split; [apply wfc_keys|apply wfc_int_keys]; now apply F.
 Qed.
 
 (* ================================================================ equality with a dict *)
@@ -1378,75 +1439,97 @@ Definition holds_pair (c : container) (tv : tag * str) : Prop :=
   lookup (dict_key tv) (items c) = Some (VStr (snd tv)).
 Definition same_core_keys (other : list (tag * str)) (c : container) : Prop :=
   set_eqb (core_keys (map dict_key other)) (core_keys (keys c)) = true.
-(* known-finding class D18-eq-dict-framing-tag: the dict names one of the four framing tags *)
-Definition framing_free (other : list (tag * str)) : Prop :=
-  Forall (fun tv => mem (dict_key tv) ignore_tags = false) other.
 (* what the property asks for: same tags and same values, the framing tags left out on both sides *)
 Definition dict_content_eq (other : list (tag * str)) (c : container) : Prop :=
   same_core_keys other c /\
   Forall (fun tv => mem (dict_key tv) ignore_tags = true \/ holds_pair c tv) other.
 
-Lemma eq_dict_loop_true other c : eq_dict_loop other c = Ok true <-> Forall (holds_pair c) other.
+Lemma eq_dict_loop_true other c :
+  eq_dict_loop other c = Ok true <->
+  Forall (fun tv => mem (dict_key tv) ignore_tags = true \/ holds_pair c tv) other.
 Proof.
   induction other as [|[t v] o IH]; cbn [eq_dict_loop].
   - split; [constructor|reflexivity].
-  - unfold c_is_group, c_get. unfold holds_pair at 1. unfold dict_key. cbn [fst snd].
-    destruct (lookup (tag_str t) (items c)) as [[s|g|[] x]|] eqn:L; cbn [rval_is];
-      try (split; [discriminate|intros F; inversion F as [|? ? H _]; subst; unfold holds_pair, dict_key in H;
-                                 cbn [fst snd] in H; rewrite L in H; discriminate]).
-    destruct (str_eqb s v) eqn:E.
-    + apply str_eqb_eq in E. subst. rewrite IH. split; intros F.
-      * constructor; [|exact F]. unfold holds_pair, dict_key. cbn [fst snd]. exact L.
-      * now inversion F.
-    + split; [discriminate|]. intros F. inversion F as [|? ? H _]; subst.
-      unfold holds_pair, dict_key in H. cbn [fst snd] in H. rewrite L in H. inversion H; subst.
-      rewrite str_eqb_refl in E. discriminate.
+  - destruct (mem (tag_str t) ignore_tags) eqn:M.
+    + rewrite IH. split; intros F; [constructor; [now left|exact F]|now inversion F].
+    + assert (HD : forall P : Prop, (mem (dict_key (t, v)) ignore_tags = true \/ P) -> P).
+      { intros P [H|H]; [|exact H]. unfold dict_key in H. cbn [fst] in H. congruence. }
+      unfold c_is_group, c_get.
+      destruct (lookup (tag_str t) (items c)) as [[s|g|[] x]|] eqn:L; cbn [rval_is];
+        try (split; [discriminate|intros F; inversion F as [|? ? H _]; subst; apply HD in H;
+                                   unfold holds_pair, dict_key in H; cbn [fst snd] in H; rewrite L in H; discriminate]).
+      destruct (str_eqb s v) eqn:E.
+      * apply str_eqb_eq in E. subst. rewrite IH. split; intros F.
+        -- constructor; [|exact F]. right. unfold holds_pair, dict_key. cbn [fst snd]. exact L.
+        -- now inversion F.
+      * split; [discriminate|]. intros F. inversion F as [|? ? H _]; subst. apply HD in H.
+        unfold holds_pair, dict_key in H. cbn [fst snd] in H. rewrite L in H. inversion H; subst.
+        rewrite str_eqb_refl in E. discriminate.
 Qed.
 
-Lemma eq_dict_true_iff other c :
-  c_eq_dict other c = Ok true <-> same_core_keys other c /\ Forall (holds_pair c) other.
+(* == dict is True exactly when the content is the same, the four framing tags ignored on both sides *)
+Lemma eq_dict_iff other c : c_eq_dict other c = Ok true <-> dict_content_eq other c.
 Proof.
-  unfold c_eq_dict, same_core_keys, keys, dict_key.
+  unfold c_eq_dict, dict_content_eq, same_core_keys, keys.
+  change (map (fun tv => tag_str (fst tv)) other) with (map dict_key other).
   destruct (set_eqb _ _).
   - rewrite eq_dict_loop_true. split; [now split|now intros [_ H]].
   - split; [discriminate|intros [H _]; discriminate].
 Qed.
 
-(* outside the known class, == dict is True exactly when the content is the same *)
-Lemma eq_dict_partial other c :
-  framing_free other -> (c_eq_dict other c = Ok true <-> dict_content_eq other c).
-Proof.
-  intros FF. unfold framing_free in FF. rewrite eq_dict_true_iff. unfold dict_content_eq. split; intros [K F]; (split; [exact K|]).
-  - eapply Forall_impl; [|exact F]. intros tv H. now right.
-  - rewrite Forall_forall in *. intros tv I. destruct (F tv I) as [H|H]; [|exact H].
-    rewrite (FF tv I) in H. discriminate.
-Qed.
-
 Lemma forallb_mem_incl a b : forallb (fun k => mem k b) a = true -> forall k, In k a -> In k b.
 Proof. intros H k I. rewrite forallb_forall in H. apply mem_In. now apply H. Qed.
 
-(* ... and it does not raise when the message holds plain values only *)
+(* ... and it returns a bool (never raises) when the message holds plain values only *)
 Lemma eq_dict_total other c :
-  framing_free other -> Forall (fun kv => exists s, snd kv = VStr s) (items c) ->
-  exists b, c_eq_dict other c = Ok b.
+  Forall (fun kv => exists s, snd kv = VStr s) (items c) -> exists b, c_eq_dict other c = Ok b.
 Proof.
-  intros FF PV. unfold framing_free in FF. unfold c_eq_dict.
+  intros PV. unfold c_eq_dict.
   destruct (set_eqb _ _) eqn:S; [|now exists false].
   unfold set_eqb in S. apply andb_true_iff in S. destruct S as [S _].
-  assert (K : forall tv, In tv other -> exists s, lookup (dict_key tv) (items c) = Some (VStr s)).
-  { intros tv I. assert (I' : In (dict_key tv) (map fst (items c))).
+  assert (K : forall tv, In tv other -> mem (dict_key tv) ignore_tags = false ->
+                         exists s, lookup (dict_key tv) (items c) = Some (VStr s)).
+  { intros tv I M. assert (I' : In (dict_key tv) (map fst (items c))).
     { assert (J : In (dict_key tv) (core_keys (map (fun tv0 => tag_str (fst tv0)) other))).
       { unfold core_keys. apply filter_In. split.
         - apply in_map_iff. now exists tv.
-        - rewrite Forall_forall in FF. now rewrite (FF tv I). }
+        - now rewrite M. }
       pose proof (forallb_mem_incl _ _ S _ J) as J'. unfold core_keys in J'. apply filter_In in J'. now destruct J'. }
     apply has_In in I'. unfold has in I'. destruct (lookup (dict_key tv) (items c)) as [v|] eqn:L; [|discriminate].
     apply lookup_In in L. rewrite Forall_forall in PV. destruct (PV _ L) as [s E]. cbn [snd] in E. subst.
     now exists s. }
-  clear S FF. induction other as [|[t v] o IH]; cbn [eq_dict_loop]; [now exists true|].
-  destruct (K (t, v) (or_introl eq_refl)) as [s L]. unfold dict_key in L. cbn [fst] in L.
-  unfold c_is_group, c_get. rewrite L. cbn [rval_is]. destruct (str_eqb s v); [|now exists false].
-  apply IH. intros tv I. apply K. now right.
+  clear S. induction other as [|[t v] o IH]; cbn [eq_dict_loop]; [now exists true|].
+  assert (IH' : exists b, eq_dict_loop o c = Ok b).
+  { apply IH. intros tv I. apply K. now right. }
+  destruct (mem (tag_str t) ignore_tags) eqn:M; [exact IH'|].
+  destruct (K (t, v) (or_introl eq_refl) M) as [s L]. unfold dict_key in L. cbn [fst] in L.
+  unfold c_is_group, c_get. rewrite L. cbn [rval_is]. destruct (str_eqb s v); [exact IH'|now exists false].
+Qed.
+
+(* the errors of == dict: only FIXMessageError (a compared tag is a group) or what a class-valued tag raises *)
+Lemma eq_dict_no_missing other c :
+  Forall (fun kv => forall k x, snd kv <> VCls k x) (items c) ->
+  forall e, c_eq_dict other c = Exc e -> e = EFIXMessage.
+Proof.
+  intros NC e. unfold c_eq_dict.
+  destruct (set_eqb _ _) eqn:S; [|discriminate].
+  unfold set_eqb in S. apply andb_true_iff in S. destruct S as [S _].
+  assert (K : forall tv, In tv other -> mem (dict_key tv) ignore_tags = false ->
+                         lookup (dict_key tv) (items c) <> None).
+  { intros tv I M. assert (I' : In (dict_key tv) (map fst (items c))).
+    { assert (J : In (dict_key tv) (core_keys (map (fun tv0 => tag_str (fst tv0)) other))).
+      { unfold core_keys. apply filter_In. split; [apply in_map_iff; now exists tv|now rewrite M]. }
+      pose proof (forallb_mem_incl _ _ S _ J) as J'. unfold core_keys in J'. apply filter_In in J'. now destruct J'. }
+    intros L. apply lookup_None in L. contradiction. }
+  clear S. induction other as [|[t v] o IH]; cbn [eq_dict_loop]; [discriminate|].
+  assert (IH' : eq_dict_loop o c = Exc e -> e = EFIXMessage).
+  { apply IH. intros tv I. apply K. now right. }
+  destruct (mem (tag_str t) ignore_tags) eqn:M; [exact IH'|].
+  pose proof (K (t, v) (or_introl eq_refl) M) as L. unfold dict_key in L. cbn [fst] in L.
+  unfold c_is_group, c_get. destruct (lookup (tag_str t) (items c)) as [[s|g|k x]|] eqn:L'; [| | |contradiction].
+  - cbn [rval_is]. destruct (str_eqb s v); [exact IH'|discriminate].
+  - intros H. now inversion H.
+  - exfalso. apply lookup_In in L'. rewrite Forall_forall in NC. now apply (NC _ L' k x).
 Qed.
 
 (* ================================================================ one statement for all spellings *)
